@@ -58,10 +58,11 @@ package tcc
 //@   let global := cv != nil && cv.(*tm.ContextVariable).Xid != ""
 //@   modifies cv.(*tm.ContextVariable).BusinessActionContext, ghost.begin_sends, ghost.commit_sends, ghost.rollback_sends, ghost.other_sends, ghost.commit_acked, ghost.commit_refused, ghost.rollback_acked, ghost.rollback_refused, ghost.last_send_failed, ghost.commit_xid, ghost.rollback_xid, ghost.begin_xid
 //@   ensures outside-a-global-tx: !global ==> result != nil && ghost.other_sends == old(ghost.other_sends)
-//@   ensures exactly-one-registration: global ==> called("BranchRegister#1") && !called("BranchRegister#2")
+//@   ensures exactly-one-registration: global ==> !called("BranchRegister#2") && (called("BranchRegister#1") || (called("Marshal#1") && callres("Marshal#1", 1) != nil))
 //@   ensures refusal-surfaces: global && called("BranchRegister#1") && callres("BranchRegister#1", 1) != nil ==> result != nil
 //@   ensures branch-id-kept: global && result == nil && called("BranchRegister#1") ==> cv.(*tm.ContextVariable).BusinessActionContext != nil && cv.(*tm.ContextVariable).BusinessActionContext.BranchId == callres("BranchRegister#1", 0) && cv.(*tm.ContextVariable).BusinessActionContext.Xid == cv.(*tm.ContextVariable).Xid && cv.(*tm.ContextVariable).BusinessActionContext.ActionName == t.TCCResource.TwoPhaseAction.actionName
 //@   at call BranchRegister#1: assert tcc-branch-of-this-action: arg_param.BranchType == branch.BranchTypeTCC && arg_param.ResourceId == t.TCCResource.TwoPhaseAction.actionName && arg_param.Xid == cv.(*tm.ContextVariable).Xid && arg_param.LockKeys == "" && called("Marshal#1") && arg_param.ApplicationData == string(callres("Marshal#1", 0))
+//@   ensures parameters-that-cannot-be-recorded-stop-the-registration: global && called("Marshal#1") && callres("Marshal#1", 1) != nil ==> result != nil && !called("BranchRegister#1")
 //@   at call Marshal#1: assert the-application-data-is-the-tagged-parameters: isT(arg_v, map[string]interface{}) && called("initActionContext#1") && isT(arg_v.(map[string]interface{})[constant.ActionContext], map[string]interface{}) && arg_v.(map[string]interface{})[constant.ActionContext].(map[string]interface{}) == callres("initActionContext#1", 0)
 //@   range 1 invariant true
 
